@@ -65,6 +65,16 @@ CHECKS = {
              "of all histories of <=4 (quick) / <=5 (thorough) set/add/remove/clear steps; every normal-form cardinality "
              "with bounds <=3 is saved and reloaded in XML, JSON, YAML through string, file and odml.save/load.",
         design="DESIGN.md C09"),
+    "C11": dict(
+        engine="history",
+        category="model_checking",
+        technique="enumeration of copy points x exhaustive edit sequences up to a depth, differential snapshots of both sides",
+        text="Every node of a document (all dtype classes incl. n-tuples, cardinalities, a resolved link) as clone root x "
+             "children x keep_id, export_leaf of every node, the values getter, lists passed in, and "
+             "TemplateHandler.clone_section; equality, detachment, identity-disjointness (objects, value lists, nested "
+             "lists) and id freshness at copy time; then every single edit on every node of either side and all edit "
+             "sequences of length 2 (quick) / 3 (thorough) at five copy points: the other side's snapshot must not change.",
+        design="DESIGN.md C11"),
     "C13": dict(
         engine="input",
         category="model_checking",
